@@ -745,9 +745,15 @@ impl<'a> Gen<'a> {
             W_STRIP_ANN => Op::StripAnnotationIds,
             W_STRIP_DATA => Op::StripDataIds,
             W_REINDEX => Op::Reindex,
-            _ => Op::Restart {
-                format: *self.rng.pick(&self.cfg.restart_formats),
-            },
+            _ => {
+                let format = *self.rng.pick(&self.cfg.restart_formats);
+                // now and then only a save: the store lives on with its changed flags cleared
+                if matches!(format, Format::Csv | Format::JsonInclude) && self.rng.chance(1, 3) {
+                    Op::Checkpoint { format }
+                } else {
+                    Op::Restart { format }
+                }
+            }
         }
     }
 }
